@@ -18,21 +18,30 @@ import (
 // classes, then Release and a second decoder obtained from the pool (scratch buffer / rn reuse).
 
 type c02Hist struct {
-	Decoder string `json:"decoder"`
-	Seq     []int  `json:"value_indices"`
-	Env     EnvCfg `json:"env"`
+	Decoder  string `json:"decoder"`
+	Seq      []int  `json:"value_indices"`
+	Env      EnvCfg `json:"env"`
+	CoTenant int    `json:"co_tenant,omitempty"` // C09: adversarial pool co-tenant between operations (1 keeps, 2 frees again)
+	Prop     string `json:"prop,omitempty"`
 }
 
 func c02HistValues() []ref.Value {
 	big := ref.Value{T: ref.STRING, S: bytes.Repeat([]byte{0x31, 0x32, 0x33}, 3000)}
 	mid := ref.Value{T: ref.STRING, S: bytes.Repeat([]byte{0x41}, 4097)}
+	// strings whose end falls just below a doubled buffer size once a small value has been consumed before them
+	near8k := ref.Value{T: ref.STRING, S: bytes.Repeat([]byte{0x42}, 8180)}
+	near16k := ref.Value{T: ref.STRING, S: bytes.Repeat([]byte{0x43}, 16376)}
 	return []ref.Value{
 		gen.Small(ref.LIST, 0),
 		big,
 		{T: ref.STRUCT, F: []ref.Field{{ID: 1, V: gen.Small(ref.MAP, 0)}, {ID: 2, V: gen.Small(ref.I64, 0)}}},
 		mid,
+		near8k,
+		near16k,
 	}
 }
+
+var c02Poison = []byte{0x55, 0x00, 0x01, 0x02, 0x03, 0x04, 0x05, 0x06}
 
 type nexter interface {
 	Next(t thrift.TType) ([]byte, error)
@@ -43,15 +52,29 @@ func c02HistOne(c *mc.Ctx, k c02Hist) {
 	vals := c02HistValues()
 	mcache.VerifReset()
 	vsync.Reset()
+	prop := k.Prop
+	if prop == "" {
+		prop = "C02"
+	}
 	bad := func(class, format string, a ...interface{}) {
-		c.Violate("history", fmt.Sprintf("C02|%s|history|%s", k.Decoder, class), fmt.Sprintf("%s, Next sequence over values %v [%s]: ", k.Decoder, k.Seq, k.Env)+fmt.Sprintf(format, a...), k)
+		c.Violate("history", fmt.Sprintf("%s|%s|history|%s", prop, k.Decoder, class), fmt.Sprintf("%s, Next sequence over values %v [%s, co-tenant %d]: ", k.Decoder, k.Seq, k.Env, k.CoTenant)+fmt.Sprintf(format, a...), k)
+	}
+	cot := func() {
+		if k.CoTenant != 0 {
+			mcache.VerifCoTenant(k.CoTenant == 1)
+		}
 	}
 	pi := mc.Try(func() {
 		for round := 0; round < 2; round++ { // second round: decoder re-acquired from the pool
 			var stream []byte
 			var encs [][]byte
 			for _, vi := range k.Seq {
-				e := ref.Encode(nil, &vals[vi])
+				var e []byte
+				if vi < 0 {
+					e = c02Poison // read first as a STRUCT (fails: unknown field type), then as an I64 (well-formed)
+				} else {
+					e = ref.Encode(nil, &vals[vi])
+				}
 				encs = append(encs, e)
 				stream = append(stream, e...)
 			}
@@ -80,8 +103,21 @@ func c02HistOne(c *mc.Ctx, k c02Hist) {
 			}
 			pos := 0
 			var kept [][]byte
+			var last []byte
 			for i, vi := range k.Seq {
-				b, err := d.Next(thrift.TType(vals[vi].T))
+				cot()
+				if last != nil && !bytes.Equal(last, encs[i-1]) {
+					bad("retained-changed", "round %d, the result of Next #%d (valid until the next Next) changed before the next Next was called", round, i-1)
+					return
+				}
+				tt := thrift.TType(ref.I64)
+				if vi >= 0 {
+					tt = thrift.TType(vals[vi].T)
+				} else if _, perr := d.Next(thrift.STRUCT); perr == nil {
+					bad("poison-accepted", "round %d: a struct with an unknown field type was accepted", round)
+					return
+				}
+				b, err := d.Next(tt)
 				if err != nil {
 					bad("rejected", "round %d, Next #%d rejected a complete value: %v", round, i, err)
 					return
@@ -99,8 +135,12 @@ func c02HistOne(c *mc.Ctx, k c02Hist) {
 					bad("over-consumed-source", "round %d, after Next #%d the io.Reader handed out %d bytes, want %d", round, i, er.BytesOut, pos)
 					return
 				}
+				if k.Decoder == skReaderSkip {
+					last = b
+				}
 				if k.Decoder != skReaderSkip { // results backed by the reader / input stay valid until Release
 					kept = append(kept, b)
+					cot()
 					for j, kb := range kept {
 						if !bytes.Equal(kb, encs[j]) {
 							bad("retained-changed", "round %d, result of Next #%d changed after Next #%d (before Release)", round, j, i)
@@ -109,9 +149,24 @@ func c02HistOne(c *mc.Ctx, k c02Hist) {
 					}
 				}
 			}
+			cot()
+			if last != nil && !bytes.Equal(last, encs[len(encs)-1]) {
+				bad("retained-changed", "round %d, the last result changed before Release", round)
+				return
+			}
+			for j, kb := range kept {
+				if !bytes.Equal(kb, encs[j]) {
+					bad("retained-changed", "round %d, result of Next #%d changed before Release", round, j)
+					return
+				}
+			}
 			release()
 			if r != nil {
 				r.Release(nil)
+			}
+			cot()
+			if k.CoTenant != 0 {
+				mcache.VerifAuditCoTenant()
 			}
 			if a := mcache.VerifTakeAudit(); len(a) > 0 {
 				bad("pool-audit:"+auditClass(a[0]), "buffer pool audit: %v", a)
@@ -142,8 +197,17 @@ func c02Histories(c *mc.Ctx) {
 			}
 		}
 	}
+	// a Next that fails part-way (peek-only decoders consume nothing), then well-formed values on the SAME decoder
+	var pseqs [][]int
+	for a := 0; a < nv; a++ {
+		pseqs = append(pseqs, []int{-1, a}, []int{a, -1, a}, []int{-1, -1, a})
+	}
 	for _, dec := range []string{skDecStream, skDecBytesR, skBytesSkip, skReaderSkip} {
-		for _, seq := range seqs {
+		all := seqs
+		if dec == skDecStream || dec == skDecBytesR {
+			all = append(append([][]int{}, seqs...), pseqs...)
+		}
+		for _, seq := range all {
 			es := envs
 			if dec == skDecBytesR || dec == skBytesSkip {
 				es = envs[:1]
